@@ -6,7 +6,7 @@ Not decided: decode(encode_schedule(x)) == x.  See DESIGN.md §4 C11."""
 from ..facts import extract, Broken
 from ..ir import Program, walk, is_call, strip_casts, access_path, const_val
 from ..report import Result
-from ..rules import locks, reset
+from ..rules import locks, reset, guards
 
 JOB = ("ZSTDMT_jobDescription", "job_mutex")
 SER = ("serialState_t", "mutex")
@@ -362,8 +362,23 @@ def completion_protocol(prog, res):
             if not isassert:
                 res.check(bool(wr), "T4.job-error-reported", "ZSTDMT_compressionJob:isError@%s" % c.get("l", bid),
                           f.loc, "error stored into job->cSize (JOB_ERROR)", "error branch does not record the error in job->cSize")
+    # the waiters' completion predicate is `consumed < src.size` (ZSTDMT_waitForAllJobsCompleted, blocking flush): it cannot tell an
+    # empty job that a worker has not started from one that is finished.  A job prepared with a size of zero is therefore never
+    # handed to the pool: every path from the preparation of a job to POOL_tryAdd takes the edge on which its size is not zero.
+    cj = prog.fn("ZSTDMT_createCompressionJob")
+    prep = cj.find_roots(lambda x: x.get("k") == "asg" and x.get("op") == "=" and strip_casts(x["lhs"]).get("k") == "mem" and strip_casts(x["lhs"]).get("f") == "size"
+                         and strip_casts(x["rhs"]).get("pi") is not None)
+    post = cj.call_roots("POOL_tryAdd")
+    szp = {strip_casts(x["rhs"]).get("pi") for b, i in prep for x in walk(cj.blocks[b]["el"][i]) if x.get("k") == "asg" and strip_casts(x["lhs"]).get("f") == "size"} - {None}
+    nonempty = guards.rel_edges(cj, lambda a: strip_casts(a).get("pi") in szp, "==", lambda b_: const_val(strip_casts(b_)) == 0, truth=False) + \
+        guards.truthy_edges(cj, lambda c: c.get("pi") in szp, truth=True)
+    ok = bool(prep) and bool(post) and bool(nonempty) and cj.must_pass(via_edges=nonempty, starts=[(b, i + 1) for b, i in prep], targets=post)
+    res.check(ok, "T3.job-completion", "ZSTDMT_createCompressionJob:posted-job-is-not-empty", cj.loc,
+              "a job prepared with src.size == 0 never reaches POOL_tryAdd (the waiters' predicate `consumed < src.size` is false for it from the start)",
+              "ZSTDMT_createCompressionJob can post a job whose src.size is 0: ZSTDMT_waitForAllJobsCompleted does not wait for it, and ZSTD_CCtx_reset / "
+              "ZSTD_freeCCtx with a shared pool release the job table while the worker writes the frame header (use after free)")
     res.need("T4.job-error-reported", 7)
-    res.need("T3.job-completion", 9)
+    res.need("T3.job-completion", 10)
 
 
 def serial_order(prog, res):
